@@ -746,3 +746,64 @@ Theorem law_order_tol_model nodes m specs res :
 Proof.
   apply per_sched_model. intros ch a Hnd. now apply sched_order_tol_ok_model.
 Qed.
+
+(* ------------------------------------------------------------------ *)
+(* the repaired listing (fix f5a4653): nodes sorted by name             *)
+(* ------------------------------------------------------------------ *)
+
+Lemma ins_node_perm x l : Permutation (ins_node x l) (x :: l).
+Proof.
+  induction l as [|y r IH]; simpl; [reflexivity|].
+  destruct (Pos.leb (nname x) (nname y)); [reflexivity|]. rewrite IH. apply perm_swap.
+Qed.
+
+Lemma list_nodes_perm l : Permutation (list_nodes l) l.
+Proof. induction l as [|x l IH]; simpl; [reflexivity|]. rewrite ins_node_perm. now constructor. Qed.
+
+Definition name_le (a b : node) : Prop := (nname a <= nname b)%positive.
+
+Lemma ins_node_sorted x l : StronglySorted name_le l -> StronglySorted name_le (ins_node x l).
+Proof.
+  induction l as [|y r IH]; simpl; intros H; [repeat constructor|].
+  inversion H as [|? ? Hr Hy]; subst. destruct (Pos.leb (nname x) (nname y)) eqn:E.
+  - apply Pos.leb_le in E. constructor; [assumption|]. constructor; [exact E|].
+    eapply Forall_impl; [|exact Hy]. intros z Hz. unfold name_le in *. lia.
+  - apply Pos.leb_gt in E. constructor; [now apply IH|].
+    eapply Permutation_Forall; [symmetry; apply ins_node_perm|].
+    constructor; [unfold name_le; lia | assumption].
+Qed.
+
+Lemma list_nodes_sorted l : StronglySorted name_le (list_nodes l).
+Proof. induction l as [|x l IH]; simpl; [constructor | now apply ins_node_sorted]. Qed.
+
+Definition name_lt (a b : node) : Prop := (nname a < nname b)%positive.
+
+Lemma sorted_le_lt l : NoDup (map nname l) -> StronglySorted name_le l -> StronglySorted name_lt l.
+Proof.
+  induction l as [|a l IH]; intros Hnd Hs; [constructor|].
+  simpl in Hnd. inversion Hnd as [|? ? Ha Hnd']; subst. inversion Hs as [|? ? Hs' Hf]; subst.
+  constructor; [now apply IH|]. rewrite Forall_forall in Hf. apply Forall_forall. intros b Hb.
+  specialize (Hf b Hb). unfold name_le, name_lt in *.
+  assert (nname a <> nname b) by (intros E; apply Ha; rewrite E; now apply in_map). lia.
+Qed.
+
+(* whatever order the lister returns the nodes in, the controller works on the same list *)
+Theorem list_nodes_order_independent nodes nodes' :
+  Permutation nodes nodes' -> NoDup (map nname nodes) -> list_nodes nodes = list_nodes nodes'.
+Proof.
+  intros Hp Hnd. apply (strict_sorted_unique name_lt).
+  - unfold name_lt. intros x y H1 H2. lia.
+  - unfold name_lt. intros x H. lia.
+  - apply sorted_le_lt; [|apply list_nodes_sorted].
+    eapply Permutation_NoDup; [|exact Hnd]. apply Permutation_map. symmetry. apply list_nodes_perm.
+  - apply sorted_le_lt; [|apply list_nodes_sorted].
+    eapply Permutation_NoDup; [|exact Hnd]. apply Permutation_map.
+    transitivity nodes'; [exact Hp | symmetry; apply list_nodes_perm].
+  - rewrite !list_nodes_perm. exact Hp.
+Qed.
+
+(* identical cluster state, identical assignments — at full strength, ties included *)
+Theorem assignments_lister_order_independent nodes nodes' m specs :
+  Permutation nodes nodes' -> NoDup (map nname nodes) ->
+  assignments (list_nodes nodes) m specs = assignments (list_nodes nodes') m specs.
+Proof. intros Hp Hnd. now rewrite (list_nodes_order_independent nodes nodes' Hp Hnd). Qed.
